@@ -27,6 +27,7 @@ ASSUMPTIONS = [
     "FSC is evaluated on the broadband particle class only (its unweighted mean over shells is arbitrary on shells holding only rounding noise)",
     "tolerances from the statement: 0.1 px (ZNCC, NCC, PCC unmasked), 0.5 px (FSC, or soft mask)",
     "displacements on a finite lattice that contains the range boundary, its corners and off-grid interior points",
+    "wide-range family: max_shifts = box//2 + 1 on (12,12,12) and (10,12,11) with |d| <= 3, so that the periodic image of the displaced copy is outside the range",
 ]
 
 MODELS = ["ZNCC", "NCC", "PCC", "FSC"]
@@ -86,6 +87,29 @@ def cases(tier, seed):
                                 for d in itertools.product(*dv):
                                     out.append({"shape": list(shape), "M": M, "model": model, "cls": cls,
                                                 "mask": mask, "cutoff": cutoff, "tilt": tilt, "d": list(d)})
+    # a search range wider than half the box (small binned boxes with a generous range): the displacement itself stays
+    # moderate, so that the periodic image of the copy lies outside the range and the answer is unique
+    wide = (-3.0, 0.25, 2.0) if tier == "quick" else (-3.0, -2.0, 0.25, 2.0, 3.0)
+    for shape in ((12, 12, 12), (10, 12, 11)):
+        M = [float(n // 2 + 1) for n in shape]
+        for model in MODELS:
+            for cls in CLASSES:
+                if model == "FSC" and cls != "broadband":
+                    continue
+                for tilt in ("none", "y60:I"):
+                    if model == "FSC" and tilt != "none":
+                        continue
+                    for d in itertools.product(wide, repeat=3):
+                        out.append({"shape": list(shape), "M": M, "model": model, "cls": cls, "mask": "none", "cutoff": None, "tilt": tilt, "d": list(d), "wide": True})
+    # ranges that are zero along some axes (search in a plane or along a line)
+    for shape in ((10, 10, 10), (9, 10, 11)):
+        for M, ds in (((0.0, 2.0, 2.0), [(0, -2, 0.25), (0, 1.5, -0.5), (0, 0, 2)]), ((1.5, 0.0, 0.0), [(-1.5, 0, 0), (0.25, 0, 0)]), ((0.0, 0.0, 2.5), [(0, 0, -2.5), (0, 0, 0.3)])):
+            for model in MODELS:
+                for cls in CLASSES:
+                    if model == "FSC" and cls != "broadband":
+                        continue
+                    for d in ds:
+                        out.append({"shape": list(shape), "M": list(M), "model": model, "cls": cls, "mask": "none", "cutoff": None, "tilt": "none", "d": [float(x) for x in d], "partial": True})
     return out
 
 
@@ -166,6 +190,10 @@ def run_case(case):
     boundary = bool(np.any(np.isclose(np.abs(d), M)))
     where = "boundary" if boundary else "interior"
     viol = []
+    if case.get("wide"):
+        where = "wide-range"
+    if case.get("partial"):
+        where = "partial-range"
     sig = lambda kind: f"{ID}|{mname}|{kind}|{where}|mask={case['mask']}"  # noqa
     if not np.all(np.isfinite(shift)):
         viol.append((sig("non-finite"), f"shift={shift.tolist()}"))
